@@ -68,6 +68,7 @@ struct FwdRaw {
   friend bool operator!=(const FwdRaw &a, const FwdRaw &b) { return a.p != b.p; }
 };
 template <class E> static E *raw_of(E *p) { return p; }
+template <class E> static E *raw_of(std::reverse_iterator<E *> it) { return it.base(); }
 template <class E> static E *raw_of(FwdRaw<E> it) { return it.p; }
 
 template <class E>
@@ -316,7 +317,8 @@ static void relocate_case(const char *ename, int algo, long len, const char *sna
       for (long i = 0; i < len; ++i) {
         new (sbuf.at(i)) E(Mk<E>::make(static_cast<int>(10 + i)));
       }
-      S sf = mksrc(sbuf.at(0)), sl = mksrc(sbuf.at(len));
+      const bool rev = sname[0] == 'r';
+      S sf = rev ? mksrc(sbuf.at(len)) : mksrc(sbuf.at(0)), sl = rev ? mksrc(sbuf.at(0)) : mksrc(sbuf.at(len));
       D d = mkdest(dbuf.at(0));
       bool threw = false;
       long ret = -1, sadv = -1;
@@ -328,7 +330,7 @@ static void relocate_case(const char *ename, int algo, long len, const char *sna
             case R_RELOCATE_N: {
               std::pair<S, D> pr = amc::uninitialized_relocate_n(sf, len, d);
               ret = static_cast<long>(raw_of(pr.second) - dbuf.at(0));
-              sadv = static_cast<long>(raw_of(pr.first) - sbuf.at(0));
+              sadv = rev ? static_cast<long>(sbuf.at(len) - raw_of(pr.first)) : static_cast<long>(raw_of(pr.first) - sbuf.at(0));
               break;
             }
             default: ret = amc::relocate_at(sbuf.at(0), dbuf.at(0)) == dbuf.at(0) ? 1 : -1; break;
@@ -345,7 +347,7 @@ static void relocate_case(const char *ename, int algo, long len, const char *sna
       }
       feature(7);
       if (len >= 2) feature(0);
-      if (sname[0] == 'f' || dname[0] == 'f') feature(1);
+      if (sname[0] != 'p' || dname[0] == 'f') feature(1);
       if (dname[0] == 'f') feature(6);
       if (!IsTriv<E>::value) feature(2);
       if (k < P) feature(k == 0 ? 4 : (k + 1 == P ? 5 : 3));
@@ -365,7 +367,8 @@ static void relocate_case(const char *ename, int algo, long len, const char *sna
         if (!failed() && ret != len) violation(P15, "returned destination iterator is %ld past the start, expected %ld", ret, len);
         if (!failed() && algo == R_RELOCATE_N && sadv != len) violation(P15, "returned source iterator advanced by %ld, expected %ld", sadv, len);
         for (long i = 0; i < len && !failed(); ++i)
-          if (vget(*dbuf.at(i)) != 10 + i) violation(P15, "relocated element %ld is %d, expected %ld", i, vget(*dbuf.at(i)), 10 + i);
+          if (vget(*dbuf.at(i)) != 10 + (rev ? len - 1 - i : i))
+            violation(P15, "relocated element %ld is %d, expected %ld", i, vget(*dbuf.at(i)), 10 + (rev ? len - 1 - i : i));
         if (!failed() && IsTracked<E>::value && cells().live != static_cast<uint32_t>(len))
           violation(P15 | P02, "%u live values after relocation of %ld elements (sources must be gone, destinations alive)", cells().live, len);
         if (!failed() && !trivially_reloc && std::is_same<E, NTR>::value && shells().live != static_cast<uint32_t>(len))
@@ -380,12 +383,15 @@ static void relocate_case(const char *ename, int algo, long len, const char *sna
 }
 
 template <class E> static E *mk_ptr(E *p) { return p; }
+template <class E> static std::reverse_iterator<E *> mk_rev(E *p) { return std::reverse_iterator<E *>(p); }
 template <class E> static FwdRaw<E> mk_fwd(E *p) { return FwdRaw<E>(p); }
 
 template <class E>
 static void run_elem(const char *ename, bool copyable_family, bool has_magic) {
   std::vector<long> lens;
   for (long l = 0; l <= 8; ++l) lens.push_back(l);
+  lens.push_back(70);   // deque sources spanning several blocks
+  lens.push_back(133);
   unsigned long long x = est().seed * 2862933555777941757ull + 3037000493ull;
   for (int q = 0; q < (est().thorough ? 10 : 3); ++q) {
     x = x * 2862933555777941757ull + 3037000493ull;
@@ -409,6 +415,7 @@ static void run_elem(const char *ename, bool copyable_family, bool has_magic) {
         relocate_case<E, FwdRaw<E>, E *>(ename, algo, len, "fwd", &mk_fwd<E>, "ptr", &mk_ptr<E>);
         relocate_case<E, E *, FwdRaw<E> >(ename, algo, len, "ptr", &mk_ptr<E>, "fwd", &mk_fwd<E>);
         relocate_case<E, FwdRaw<E>, FwdRaw<E> >(ename, algo, len, "fwd", &mk_fwd<E>, "fwd", &mk_fwd<E>);
+        if (algo != R_RELOCATE_AT) relocate_case<E, std::reverse_iterator<E *>, E *>(ename, algo, len, "rev", &mk_rev<E>, "ptr", &mk_ptr<E>);
       }
   }
 }
